@@ -37,7 +37,7 @@ theorem skel_absorb1 (p : PCfg) (f : Fmt) : ∀ (d : Node) (ctx : Ctx) (b : List
     | text t => simp [skelL]
     | special c' s' nl => simp [skelL_append, skelL_txt, skelL, skelN]
   | .tag i ks, ctx, b => by
-    have hfn : fullName ⟨fullName i, none, normAttrs p f (fullName i) i.attrs, p.voidTags.contains (fullName i), false⟩ = fullName i := by
+    have hfn : fullName ⟨fullName i, none, normAttrs p f (fullName i) i.attrs, p.isVoid (fullName i), false⟩ = fullName i := by
       simp [fullName, prefixStr]
     simp only [absorb1, skelL_append, skelL_txt, skelL, skelN, hfn, skel_absorb p f ks, List.nil_append, List.append_nil]
 end
